@@ -58,6 +58,16 @@ class FuncFacts:
                         self.entry_names[t.id] = ("elem", "subscript", v.slice)
                     elif ct.is_next_over_entries(v):
                         self.entry_names[t.id] = ("elem", "next", None)
+                elif isinstance(t, ast.Tuple) and len(t.elts) == 2 and all(isinstance(e, ast.Name) for e in t.elts) and isinstance(v, ast.Name) \
+                        and len([1 for m in walk_no_nested(fn) if isinstance(m, ast.Assign) and len(m.targets) == 1 and isinstance(m.targets[0], ast.Name) and m.targets[0].id == v.id]) == 1 \
+                        and any(isinstance(m, ast.Assign) and len(m.targets) == 1 and isinstance(m.targets[0], ast.Name) and m.targets[0].id == v.id and ct.is_next_over_entries(m.value, pair=True)
+                                for m in walk_no_nested(fn)):
+                    # found = next(((n, e) for n, e in enumerate(entries) if ..)); pos, entry = found
+                    src = next(m for m in walk_no_nested(fn) if isinstance(m, ast.Assign) and len(m.targets) == 1 and isinstance(m.targets[0], ast.Name) and m.targets[0].id == v.id)
+                    self.index_names[t.elts[0].id] = "index-of:" + t.elts[1].id
+                    self.entry_names[t.elts[1].id] = ("elem", "next", N(t.elts[0].id))
+                    self.defs.setdefault(t.elts[0].id, []).append((src.value, n))
+                    self.defs.setdefault(t.elts[1].id, []).append((src.value, n))
                 elif isinstance(t, ast.Tuple) and len(t.elts) == 2 and all(isinstance(e, ast.Name) for e in t.elts) and ct.is_next_over_entries(v, pair=True):
                     self.index_names[t.elts[0].id] = "index-of:" + t.elts[1].id
                     self.entry_names[t.elts[1].id] = ("elem", "next", N(t.elts[0].id))
